@@ -193,3 +193,16 @@ package common
 //@   for C10 C13
 //@   ensures [nilStaysNil] len(b) == 0 && cap(b) == 0 ==> len(copiedBytes) == 0
 //@   ensures [newMemorySameBytes] len(copiedBytes) == len(b) && (len(b) > 0 ==> fresh(copiedBytes)) && (forall i int :: 0 <= i && i < len(b) ==> copiedBytes[i] == b[i])
+
+// Sub (used when choosing what to gossip to a peer, with the peer's own bit array as operand) never
+// indexes outside either array, whatever the two sizes.
+//@ func (bA *BitArray) Sub(o *BitArray) (r *BitArray)
+//@   for C18
+//@   safe
+//@   requires bA != nil ==> wfBits(bA) && bA.Bits <= 281474976710656
+//@   requires o != nil ==> wfBits(o) && o.Bits <= 281474976710656
+//@   ensures bA == nil || o == nil ==> r == nil
+//@   loop 1:
+//@     invariant 0 <= i && c != nil && fresh(c) && wfBits(c) && fresh(c.Elems) && len(c.Elems) == len(bA.Elems) && c.Bits == bA.Bits && len(o.Elems) <= len(c.Elems)
+//@   loop 2:
+//@     invariant 0 <= idx && c != nil && fresh(c) && wfBits(c) && fresh(c.Elems) && c.Bits == bA.Bits && idx <= o.Bits && o.Bits < c.Bits
